@@ -334,8 +334,90 @@ func evalEq(c *Case) Result {
 	}
 	if !res.OK && c.P != "" {
 		res.Family = classify(c, in3)
+		if res.Family == "D5" || res.Family == "D9" {
+			res.Family, res.Attr = attribute(c, res.Family)
+			if res.Family == "" {
+				res.Detail += "  [" + attrText[res.Attr] + "]"
+			}
+		}
 	}
 	return res
+}
+
+// ------------------------------------------------------------------------------------------------
+// attribution of a failing `p |= f` case to the known allocator-aliasing findings D5 / D9.
+//
+// C02_modify_sound proves the compiled reduction equal to the defining one when the body satisfies body_ok:
+// its output contains no container the allocator may still write in place.  D5 and D9 are runs outside that
+// condition in one specific way: the output EMBEDS such a container below a container the body built ([.],
+// [.,.], {a:.}: then it has two owners, or an owner the allocator does not know).  A path list on which that
+// can happen (classify) is necessary for the family, not sufficient: the same path lists reach other code
+// (in-place growth, reslicing, the sweep).  So the case is re-run twice with the body's output copied:
+//
+//	deep   (f | tojson | fromjson): nothing of the running state is left in the output, body_ok holds, the
+//	       theorem applies.  Still failing => the failure does not come from what the body returns: NOT D5/D9.
+//	top    (f | a fresh top-level container with the SAME children): removes exactly the case in which the
+//	       output itself is (a slice of) a container of the running state, replacing its own input (one owner,
+//	       inside the relaxed hypothesis C02_abs_update_prefix_open); keeps every embedded container.
+//	       Passing => the failure needed the output to BE such a container/slice: NOT D5/D9 (the defect
+//	       repaired by 73ac0b6 has this shape).  Failing (and deep passing) => embedded alias: D5/D9.
+const copyDeep = "tojson | fromjson"
+const copyTop = `if type == "array" then [.[]] elif type == "object" then (. as $o | [keys[] | {key: ., value: $o[.]}] | from_entries) else . end`
+
+var attrText = map[string]string{
+	"fails-with-fresh-output": "not attributed to the D5/D9 family: the case fails as well when the update body's output is replaced by a fresh deep copy, so the failure does not come from a container of the running state embedded by the body",
+	"top-level-alias":         "not attributed to the D5/D9 family: the case passes as soon as the TOP-LEVEL container of the update body's output is copied (children shared as before), so the output embeds nothing: it IS a container of the running state or a slice of one",
+	"no-body":                 "not attributed to the D5/D9 family: the case does not record its update body, the attribution test cannot be made",
+	"variant-error":           "not attributed to the D5/D9 family: the attribution variants could not be run",
+}
+
+func attribute(c *Case, fam string) (string, string) {
+	if c.F == "" {
+		return "", "no-body"
+	}
+	top, err := variantHolds(c, copyTop)
+	if err != nil {
+		return "", "variant-error"
+	}
+	if top {
+		return "", "top-level-alias"
+	}
+	deep, err := variantHolds(c, copyDeep)
+	if err != nil {
+		return "", "variant-error"
+	}
+	if !deep {
+		return "", "fails-with-fresh-output"
+	}
+	return fam, "embedded-alias"
+}
+
+// variantHolds: does `p |= (f | copy)` equal its defining reduction `_mref(p; (f | copy))` on the case's input
+func variantHolds(c *Case, cp string) (bool, error) {
+	fr := c.FR
+	if fr == "" {
+		fr = c.F
+	}
+	lc, err := compile(c.Pre + c.Bind + c.P + " |= ((" + c.F + ") | " + cp + ")")
+	if err != nil {
+		return false, err
+	}
+	rc, err := compile(defs + c.Pre + c.Bind + "_mref(" + c.P + "; ((" + fr + ") | " + cp + "))")
+	if err != nil {
+		return false, err
+	}
+	in1, err := decode(c.Input)
+	if err != nil {
+		return false, err
+	}
+	in2, _ := decode(c.Input)
+	in3, _ := decode(c.Input)
+	l, lt := runAll(lc, in1)
+	r, rt := runAll(rc, in2)
+	if ok, _ := cmpStreams(l, r); !ok || lt != rt {
+		return false, nil
+	}
+	return depthOK(in1, 0) && equal(in1, in3), nil
 }
 
 func classOf(l []out) string {
